@@ -645,6 +645,11 @@ func (fx *FnExec) appendBuiltin(fr *frame, st *State, cc *ssa.CallCommon, args [
 	fx.assumeGlobal(c.BVCmp("bvsle", newLen, c.BVConst(mask(maxLenBits), 64)))
 	res := SliceV{c.Ite(inplace, s.Ref, nr), c.Ite(inplace, s.Off, fx.bv64(0)), newLen, c.Ite(inplace, s.Cap, ncap)}
 	fx.private[nr] = privInfo{t: et, backing: true}
+	if tsl, isSl := args[1].(SliceV); isSl && isStructT(et) && tlen.Op == "bv" && tlen.Val.IsInt64() && tlen.Val.Int64() <= 4 {
+		if fx.appendStructs(st, et, s, tsl, int(tlen.Val.Int64()), nr, inplace) {
+			return res
+		}
+	}
 	if es := singleSort(et); es == nil || isElemObj(et) {
 		fx.drop("append on slices with composite elements (appended contents unconstrained)")
 		// element contents: copy unknown; havoc the target backing arrays
@@ -852,6 +857,9 @@ func (fx *FnExec) mapLookup(fr *frame, st *State, x *ssa.Lookup) Val {
 		if why, nn := fx.eng.db.NonNilMaps[mapTypeKey(mt)]; nn {
 			if pv, isP := v.(PtrV); isP && pv.Ref != nil {
 				fx.assumeGlobal(c.Implies(ok, c.Not(c.Eq(pv.Ref, fx.nilRef()))))
+				fx.note("map invariant: values stored in " + mapTypeKey(mt) + " are non-nil (" + why + ")")
+			} else if tv, isT := v.(*Term); isT && tv.Sort == RefSort {
+				fx.assumeGlobal(c.Implies(ok, c.Not(c.Eq(tv, fx.nilRef()))))
 				fx.note("map invariant: values stored in " + mapTypeKey(mt) + " are non-nil (" + why + ")")
 			}
 		} else {
@@ -1118,4 +1126,119 @@ func globalFuncKey(cc *ssa.CallCommon) string {
 		}
 	}
 	return ""
+}
+
+// ---- append of struct elements (elements are sub-objects elem|T(ref, idx))
+
+type leafPath struct {
+	key  string
+	sort *Sort
+	at   func(base *Term) *Term // reference under which the leaf is stored, given the element's reference
+	syms [][2]interface{}       // interior function symbols used by at (name, arity)
+}
+
+// leafPaths lists every heap leaf an object of type t occupies.
+func (fx *FnExec) leafPaths(t types.Type, at func(*Term) *Term, out *[]leafPath) bool {
+	switch u := under(t).(type) {
+	case *types.Struct:
+		for i := 0; i < u.NumFields(); i++ {
+			ft := u.Field(i).Type()
+			idx := i
+			if isObjT(ft) {
+				sub := func(b *Term) *Term { return fx.subRef(t, idx, at(b)) }
+				if !fx.leafPaths(ft, sub, out) {
+					return false
+				}
+				continue
+			}
+			lvs := leavesOf(ft)
+			if lvs == nil {
+				return false
+			}
+			for _, lf := range lvs {
+				*out = append(*out, leafPath{key: fieldFamKey(t, idx, lf.name), sort: ArrSort(RefSort, lf.sort), at: at})
+			}
+		}
+		return true
+	case *types.Array:
+		et := u.Elem()
+		if isElemObj(et) {
+			return false
+		}
+		for _, lf := range leavesOf(et) {
+			*out = append(*out, leafPath{key: elemFamKey(et, lf.name), sort: ArrSort(RefSort, ArrSort(BV(64), lf.sort)), at: at})
+		}
+		return true
+	}
+	return false
+}
+
+// appendStructs models append(s, t...) for struct elements and a constant number n of appended
+// elements: in place the new elements are written after s; otherwise every leaf family gets a
+// fresh version that agrees with the old one outside the new backing array nr, copies the
+// elements of s, and holds the appended ones.
+func (fx *FnExec) appendStructs(st *State, et types.Type, s, t SliceV, n int, nr, inplace *Term) bool {
+	c := fx.c
+	var paths []leafPath
+	if !fx.leafPaths(et, func(b *Term) *Term { return b }, &paths) {
+		return false
+	}
+	// symbol-level axioms for the interior references formed under the quantifiers below
+	fx.interiorAxioms("elem|"+typeKey(et), 2)
+	probe := fx.elemRef(et, nr, fx.bv64(0))
+	var collect func(r *Term)
+	for _, p := range paths {
+		r := p.at(probe)
+		collect = func(r *Term) {
+			if r.Op == "app" && strings.HasPrefix(r.Name, "sub|") {
+				fx.interiorAxioms(r.Name, 1)
+				collect(r.Args[0])
+			}
+		}
+		collect(r)
+	}
+	seenKey := map[string]bool{}
+	for _, p := range paths {
+		// several leaves may live in one family (e.g. two [N]byte fields in M|uint8|): handle a family once,
+		// with all the paths that fall into it
+		if seenKey[p.key] {
+			continue
+		}
+		seenKey[p.key] = true
+		var same []leafPath
+		for _, q := range paths {
+			if q.key == p.key {
+				same = append(same, q)
+			}
+		}
+		old := fx.family(st, p.key, p.sort)
+		// in place
+		inpl := old
+		for k := 0; k < n; k++ {
+			dst := fx.elemRef(et, s.Ref, c.BVBin("bvadd", c.BVBin("bvadd", s.Off, s.Len), fx.bv64(int64(k))))
+			src := fx.elemRef(et, t.Ref, c.BVBin("bvadd", t.Off, fx.bv64(int64(k))))
+			for _, q := range same {
+				inpl = c.Store(inpl, q.at(dst), c.Select(old, q.at(src)))
+			}
+		}
+		// fresh backing array
+		fresh := c.Fresh("append|"+p.key, p.sort)
+		r := c.BoundVarNamed(fmt.Sprintf("r@app.%d", fresh.ID), RefSort)
+		fx.assumeGlobal(c.Forall([]*Term{r}, c.Implies(c.Not(c.Eq(c.App("rootOf", RefSort, r), nr)), c.Eq(c.Select(fresh, r), c.Select(old, r))), []*Term{c.Select(fresh, r)}))
+		i := c.BoundVarNamed(fmt.Sprintf("i@app.%d", fresh.ID), BV(64))
+		for _, q := range same {
+			dst := q.at(fx.elemRef(et, nr, i))
+			src := q.at(fx.elemRef(et, s.Ref, c.BVBin("bvadd", s.Off, i)))
+			fx.assumeGlobal(c.Forall([]*Term{i}, c.Implies(c.BVCmp("bvult", i, s.Len), c.Eq(c.Select(fresh, dst), c.Select(old, src))), []*Term{c.Select(fresh, dst)}))
+		}
+		for k := 0; k < n; k++ {
+			dst := fx.elemRef(et, nr, c.BVBin("bvadd", s.Len, fx.bv64(int64(k))))
+			src := fx.elemRef(et, t.Ref, c.BVBin("bvadd", t.Off, fx.bv64(int64(k))))
+			for _, q := range same {
+				fx.assumeGlobal(c.Eq(c.Select(fresh, q.at(dst)), c.Select(old, q.at(src))))
+			}
+		}
+		fx.setFamily(st, p.key, c.Ite(inplace, inpl, fresh))
+	}
+	return true
 }
